@@ -110,7 +110,9 @@ class Perturber:
                 k = self.tcount
             rng = random.Random(self.seed * 1000003 + k)
             slow = rng.random() < self.slow_frac
-            st = self.local.st = [rng, 1 + int(rng.expovariate(1.0 / self.mean_gap)), slow]
+            # (a budget of real sleeps per thread: a thread that spends its time inside one long critical section - a display rendering under
+            # its lock - would otherwise hold everybody up for minutes; after the budget it only yields)
+            st = self.local.st = [rng, 1 + int(rng.expovariate(1.0 / self.mean_gap)), slow, 400]
         return st
 
     def _cb(self, code, where):
@@ -127,7 +129,8 @@ class Perturber:
             gap = self.mean_gap * (0.3 if st[2] else 1.0)
             st[1] = 1 + int(rng.expovariate(1.0 / gap))
             self.yields += 1
-            if rng.random() < (self.p_sleep * (3 if st[2] else 1)):
+            if st[3] > 0 and rng.random() < (self.p_sleep * (3 if st[2] else 1)):
+                st[3] -= 1
                 time.sleep(rng.uniform(0.00005, 0.0005))
             else:
                 time.sleep(0)
